@@ -4240,6 +4240,7 @@ unsigned int optimize_intervals_double_2D_opt_MSST19(double *oriData, size_t r1,
 	size_t totalSampleSize = 0;
 
 	size_t offset_count = confparams_cpr->sampleDistance - 1; // count r2 offset
+	if(offset_count == 0) offset_count = 1; //sampleDistance 1: column 0 has no left neighbour (data_pos[-r2-1] would be oriData[-1])
 	size_t offset_count_2;
 	double * data_pos = oriData + r2 + offset_count;
 	double divider = log2(1+realPrecision)*2;
@@ -4301,6 +4302,7 @@ unsigned int optimize_intervals_double_3D_opt_MSST19(double *oriData, size_t r1,
 	size_t totalSampleSize = 0;
 
 	size_t offset_count = confparams_cpr->sampleDistance - 2; // count r3 offset
+	if(confparams_cpr->sampleDistance < 3) offset_count = 1; //sampleDistance 1 or 2: column 0 has no left neighbour (and sampleDistance-2 wraps around for 1)
 	size_t offset_count_2;
 	double * data_pos = oriData + r23 + r3 + offset_count;
 	double divider = log2(1+realPrecision)*2;
@@ -4364,6 +4366,7 @@ unsigned int optimize_intervals_double_3D_opt(double *oriData, size_t r1, size_t
 	size_t totalSampleSize = 0;
 
 	size_t offset_count = confparams_cpr->sampleDistance - 2; // count r3 offset
+	if(confparams_cpr->sampleDistance < 3) offset_count = 1; //sampleDistance 1 or 2: column 0 has no left neighbour (and sampleDistance-2 wraps around for 1)
 	size_t offset_count_2;
 	double * data_pos = oriData + r23 + r3 + offset_count;
 	size_t n1_count = 1, n2_count = 1; // count i,j sum
@@ -4719,6 +4722,7 @@ unsigned int optimize_intervals_double_2D_opt(double *oriData, size_t r1, size_t
 	size_t totalSampleSize = 0;
 
 	size_t offset_count = confparams_cpr->sampleDistance - 1; // count r2 offset
+	if(offset_count == 0) offset_count = 1; //sampleDistance 1: column 0 has no left neighbour (data_pos[-r2-1] would be oriData[-1])
 	size_t offset_count_2;
 	double * data_pos = oriData + r2 + offset_count;
 	size_t n1_count = 1; // count i sum
@@ -4841,6 +4845,7 @@ unsigned int optimize_intervals_double_2D_with_freq_and_dense_pos(double *oriDat
 	size_t freq_count = 0;
 	size_t n1_count = 1;
 	size_t offset_count = sampleDistance - 1;
+	if(offset_count == 0) offset_count = 1; //sampleDistance 1: column 0 has no left neighbour (data_pos[-r2-1] would be oriData[-1])
 	size_t offset_count_2 = 0;
 	size_t sample_count = 0;
 	data_pos = oriData + r2 + offset_count;
@@ -5837,6 +5842,7 @@ unsigned int optimize_intervals_double_3D_with_freq_and_dense_pos(double *oriDat
 	size_t sample_count = 0;
 
 	offset_count = confparams_cpr->sampleDistance - 2; // count r3 offset
+	if(confparams_cpr->sampleDistance < 3) offset_count = 1; //sampleDistance 1 or 2: column 0 has no left neighbour (and sampleDistance-2 wraps around for 1)
 	data_pos = oriData + r23 + r3 + offset_count;
 	size_t n1_count = 1, n2_count = 1; // count i,j sum
 
